@@ -32,7 +32,7 @@ CHECKS["C14"] = dict(
     engine="STORE",
     technique="deterministic simulation: seeded mutation histories over the real LpgStore with per-run operation subsets and adjacency-threshold-crossing hub runs; after every step every access path is compared with a brute-force reference graph; delta-debugged replay",
     category="exploration",
-    text="Seeded search over histories of every LpgStore mutator (100k quick / 2M thorough), with and without backward adjacency; after each step label lookups, adjacency in both directions, degrees, indexed vs scanned property lookups, range lookups, one-directional zone-map pruning, counts, enumeration and refreshed statistics are compared with a map-based reference graph.",
+    text="Seeded search over histories of every LpgStore mutator (100k quick / 2M thorough), with and without backward adjacency; after each step label lookups (index and iterator), adjacency in both directions, degrees, indexed vs scanned property lookups, single and batch property getters for nodes and edges (full, per key, selective), range lookups, one-directional zone-map pruning for node and edge properties, the name dictionaries, counts, enumeration and refreshed statistics are compared with a map-based reference graph.",
     design_ref="DESIGN.md §3 C14",
     note="Trusted: RefGraph (ordered maps, brute force). Writes are addressed to live entities; nodes with edges are deleted via delete_node_edges+delete_node as the store documents. Cross-type int/float ranges and ensure_statistics_fresh are not judged.",
 )
